@@ -23,7 +23,7 @@ import (
 	"github.com/flamego/flamego/verifharness/internal/rt"
 )
 
-const rule = "case = a history of 3..25 operations over one Flame and, per method, one mirror route.Tree populated identically: register(static - over literals that include pairs differing in letter case only; now and then one of 60..72 segments - | optional-static | dynamic route over the same literals | a registered route with one segment replaced by a bind, which shadows it; through Route, Routes (comma lists, in any case), Get while AutoHead is on, or Any), headers(route, pairs) mirrored with SetHeaderMatcher, AutoHead switched on or off for good, request(method, path, headers) with paths = route instances, the route text itself used as a path, extra leading slashes, trailing slashes, the once-decoded spelling of a path with escapes, optionally an over-escaped URL.RawPath, HEAD for GET routes, method+path strings cut at another place. " +
+const rule = "case = a history of 3..25 operations over one Flame and, per method, one mirror route.Tree populated identically: register(static - over literals that include pairs differing in letter case only; now and then one of 60..72 segments - | optional-static | dynamic route over the same literals | a registered route with one segment replaced by a bind, which shadows it; through Route, Routes (comma lists, in any case), Get while AutoHead is on, or Any; one time in five inside Group(\"\", ...), constrained with Headers() right there every second time), headers(route, pairs) mirrored with SetHeaderMatcher, AutoHead switched on or off for good, request(method, path, headers) with paths = route instances, the route text itself used as a path, extra leading slashes, trailing slashes, the once-decoded spelling of a path with escapes, optionally an over-escaped URL.RawPath, HEAD for GET routes, method+path strings cut at another place. " +
 	"Oracle (differential, after every request): handler that ran / not-found and parameters from Flame.ServeHTTP == Tree.Match on the mirror (requests whose method is not in the standard upper-case spelling are only held to: not both a route handler and the not-found chain). " +
 	"non-trivial = a history with a request answered by a fully static, unconstrained route (the shortcut's domain) after >=2 registrations, or a request whose path contains route-syntax characters ('?', '{'), or a request that follows a headers operation on a static route; distinct by case text"
 
@@ -46,6 +46,10 @@ type Op struct {
 	W string `json:"wire,omitempty"`
 	// On (autohead): the value AutoHead is set to from here on.
 	On bool `json:"on,omitempty"`
+	// InGroup (reg): the route is declared inside Group("", ...) - the path is
+	// what it is - and, when Pairs are given, constrained with Headers() right
+	// there, before the group function returns.
+	InGroup bool `json:"declared_inside_group,omitempty"`
 }
 
 type Case struct {
@@ -105,22 +109,34 @@ func checkCase(c Case) (out evid.Outcome) {
 					}
 					ctx.ResponseWriter().WriteHeader(200)
 				}
-				switch op.M {
-				case "autohead-get":
-					f.AutoHead(true)
-					defer func() { f.AutoHead(autoHead) }()
-					rs.fr = f.Get(op.R, hf)
-					return nil
-				case "any":
-					rs.fr = f.Any(op.R, hf)
-					return nil
+				declare := func() {
+					defer func() {
+						if rs.fr != nil && op.InGroup && op.H != nil {
+							rs.fr.Headers(op.H...)
+						}
+					}()
+					switch op.M {
+					case "autohead-get":
+						f.AutoHead(true)
+						defer func() { f.AutoHead(autoHead) }()
+						rs.fr = f.Get(op.R, hf)
+						return
+					case "any":
+						rs.fr = f.Any(op.R, hf)
+						return
+					}
+					if strings.Contains(op.M, ",") {
+						// a comma list goes through Routes()
+						rs.fr = f.Routes(op.R, op.M, hf)
+						return
+					}
+					rs.fr = f.Route(op.M, op.R, []flamego.Handler{hf})
 				}
-				if strings.Contains(op.M, ",") {
-					// a comma list goes through Routes()
-					rs.fr = f.Routes(op.R, op.M, hf)
-					return nil
+				if op.InGroup {
+					f.Group("", declare)
+				} else {
+					declare()
 				}
-				rs.fr = f.Route(op.M, op.R, []flamego.Handler{hf})
 				return nil
 			}()
 			if perr != nil {
@@ -149,6 +165,22 @@ func checkCase(c Case) (out evid.Outcome) {
 				rs.leaves[m] = leaf
 			}
 			regs = append(regs, rs)
+			if op.InGroup {
+				out.Classes = append(out.Classes, "declared-inside-group")
+				if op.H != nil {
+					rs.hdr = op.H
+					matches := map[string]*regexp.Regexp{}
+					for i := 1; i < len(op.H); i += 2 {
+						matches[op.H[i-1]] = regexp.MustCompile(op.H[i])
+					}
+					for _, leaf := range rs.leaves {
+						leaf.SetHeaderMatcher(route.NewHeaderMatcher(matches))
+					}
+					if isStatic(rs.r) {
+						sawHdrOnStatic = true
+					}
+				}
+			}
 		case "hdr":
 			if len(regs) == 0 {
 				continue
@@ -484,7 +516,14 @@ func genCase(t *rapid.T) Case {
 				g.Add(mm, d)
 			}
 			regs = append(regs, have{m, d.Source()})
-			c.Ops = append(c.Ops, Op{K: "reg", M: m, R: d.Source()})
+			rop := Op{K: "reg", M: m, R: d.Source()}
+			if rapid.IntRange(0, 4).Draw(t, "ingroup") == 0 {
+				rop.InGroup = true
+				if rapid.Bool().Draw(t, "ingrouphdr") {
+					rop.H = []string{[]string{"X-A", "x-a", "Accept"}[rapid.IntRange(0, 2).Draw(t, "ghn")], []string{"", "^1$", "[0-9]+"}[rapid.IntRange(0, 2).Draw(t, "ghe")]}
+				}
+			}
+			c.Ops = append(c.Ops, rop)
 		case k < 5: // headers
 			pairs := []string{[]string{"X-A", "x-a", "Accept"}[rapid.IntRange(0, 2).Draw(t, "hn")], []string{"", "^1$", "[0-9]+"}[rapid.IntRange(0, 2).Draw(t, "he")]}
 			if rapid.IntRange(0, 4).Draw(t, "clear") == 0 {
